@@ -691,6 +691,10 @@ class ExprMixin(object):
                 return self.ok(st, mk_py(('extern', v.py[1] + '.' + attr)))
             if kind == 'super':
                 return self.ok(st, mk_py(('superbound', v.py[1], v.py[2], attr)))
+            if kind == 'rematch':
+                if attr == 'group':
+                    return self.ok(st, mk_py(('rematch_group', v.py[1])))
+                self.oos('match.%s' % attr, node)
             self.oos('attribute %s of %r' % (attr, v.py[:2]), node)
         if ty == EXC:
             ex = v.py
@@ -831,6 +835,12 @@ class ExprMixin(object):
                     return self.ok(st, base.py[i])
                 return self.raise_(st, 'IndexError', node)
             self.oos('symbolic index into a static tuple', node)
+        if ty == PY and base.py[0] == 'extern':
+            q = base.py[1] + '.__getitem__'
+            c = self.spec.contracts.get(q)
+            if c is None:
+                self.oos('subscript of external object %s without a trusted contract' % base.py[1], node)
+            return self.call_contract(st, c, [idx], {}, node)
         if ty == PY and base.py[0] == 'excargs':
             ex = base.py[1]
             if z3.is_int_value(idx.z) and idx.z.as_long() == 0:
